@@ -66,7 +66,8 @@ func (t c03txn) path() string {
 }
 
 // urlMatch is the independent matcher: 1 = matches, 0 = does not, -1 = the
-// trailing wildcard would have to match the empty suffix (left undecided).
+// trailing wildcard would have to match the empty suffix, or a path parameter an
+// empty segment (left undecided).
 func (f c03flow) urlMatch(t c03txn) int {
 	if f.host != t.host {
 		return 0
@@ -74,8 +75,12 @@ func (f c03flow) urlMatch(t c03txn) int {
 	if len(t.segs) < len(f.segs) {
 		return 0
 	}
+	yes := 1
 	for i, s := range f.segs {
 		if s == "{p}" {
+			if t.segs[i] == "" {
+				yes = -1 // a path parameter against an empty segment ("//"): left undecided
+			}
 			continue
 		}
 		if s != t.segs[i] {
@@ -84,14 +89,14 @@ func (f c03flow) urlMatch(t c03txn) int {
 	}
 	if !f.wild {
 		if len(t.segs) == len(f.segs) {
-			return 1
+			return yes
 		}
 		return 0
 	}
 	if len(t.segs) == len(f.segs) {
 		return -1
 	}
-	return 1
+	return yes
 }
 
 // accepts: independent filter verdict for a direction; reason names the first
@@ -290,6 +295,12 @@ func runC03(s *kernel.Sim) {
 			for d := tp.Range(0, 4); d > 0; d-- {
 				t.segs = append(t.segs, []string{"x", "y", "z", "w", "X", "Y", "50%", "%zz"}[tp.Weighted([]int{3, 3, 3, 3, 3, 3, 1, 1})])
 			}
+		}
+		// a doubled slash: an empty segment is a segment, not nothing (never the last one:
+		// a trailing slash is another matter)
+		if len(t.segs) > 0 && tp.Chance(1, 8) {
+			k := tp.Choose(len(t.segs))
+			t.segs = append(t.segs[:k], append([]string{""}, t.segs[k:]...)...)
 		}
 		// the host is part of the URL pattern, label by label: one label more, at either
 		// end, or one label less is another host
